@@ -127,48 +127,7 @@ func runC07(c *Ctx) {
 	}
 
 	// ---- findVerifiedParents
-	fvp := w.Fn(fnFVP)
-	if fvp == nil {
-		c.Undecided("R-CUT", fnFVP, "anchor", "-", "function not found")
-	} else {
-		rc := returnClosure(fvp, 0)
-		n := 0
-		for _, b := range fvp.Blocks {
-			for _, in := range b.Instrs {
-				ap := isBuiltinCall(in, "append")
-				if ap == nil || !rc[ap] {
-					continue
-				}
-				n++
-				c.Sites++
-				vals, _ := appended(ap)
-				idx := vals[0]
-				// guard: CheckSignatureFrom(cert, s.certs[idx]) == nil
-				guard := func(v ssa.Value) bool {
-					if !ResultOf(-1, fnCSF)(v) {
-						return false
-					}
-					cl := callOf(v)
-					if !Param("cert")(cl.Call.Args[0]) {
-						return false
-					}
-					par := cl.Call.Args[1]
-					ld, ok := par.(*ssa.UnOp)
-					if !ok {
-						return false
-					}
-					ia, ok := ld.X.(*ssa.IndexAddr)
-					if !ok || ia.Index != idx {
-						return false
-					}
-					d := Deps(ia.X)
-					return hasAll(d, "field:CertPool.certs", "param:s")
-				}
-				c.Cut(CutSpec{Fn: fvp, Label: "append(parents, i) behind cert.CheckSignatureFrom(s.certs[i])==nil", Target: isInstr(ap), Cut: IsNil(guard)})
-			}
-		}
-		c.Check(n >= 1, "R-OWN", fnFVP, "parents is built by append", w.Pos(fvp.Pos()), fmt.Sprintf("%d appends", n))
-	}
+	c.fvpGuard()
 
 	// ---- isValid
 	iv := w.Fn(fnIsValid)
